@@ -51,14 +51,20 @@ def check_one(ck, r, m, d, failures, lay=0, label=''):
         failures.append(tag + '.pure')
 
 
+from props.C08 import BOUNDARY, SWEEP
+
+
 def run(tier, seed):
     ck = Check('C09', tier, seed, level='model_checking')
     if tier == 'quick':
         ms, ds = [0, 1, 3, 16, 64, 128], [1, 2, 15, 16, 17, 254, 255, 256, 257, 300]
         combos = [(m, d) for m in ms for d in ds if (m in (0, 3, 64) or d in (1, 16, 255, 256, 300))] + [(1, 65536)]   # a DST whose length does not fit 16 bits
+        combos += BOUNDARY
     else:
         ms, ds = [0, 1, 2, 3, 4, 5, 6, 7, 8, 55, 56, 63, 64, 65, 128, 512], list(range(1, 301))
         combos = [(m, d) for d in ds for m in ((0, 3, 64) if d not in (1, 16, 255, 256, 300) else ms)] + [(1, 65535), (1, 65536), (1, 65537), (0, 65791), (2, 131072)]
+        combos += SWEEP
+        combos = list(dict.fromkeys(combos))
     jobs = [{'id': 'h_%d_%d' % (m, d), 'harness': 'vh_hash', 'args': [2, m, d, 0], 'summaries': SUMM} for (m, d) in combos]
     from props.C08 import LAYCOMBOS
     jobs += [{'id': 'h_%d_%d_L%d' % (m, d, lay), 'harness': 'vh_hash', 'args': [2, m, d, lay], 'summaries': SUMM} for lay in (1, 2, 3, 4) for (m, d) in LAYCOMBOS]
@@ -95,7 +101,7 @@ def run(tier, seed):
         wide_battery(ck, failures)
     if (failures or any(not o['ok'] for o in ck.obls)) and not ck.violations:
         from props import fallback
-        cases = fallback.cases_for('C09', ck.seed)
+        cases = fallback.length_cases('C09', failures, ck.seed) + fallback.cases_for('C09', ck.seed)
         path = ck.save_replay({'property': 'C09', 'cases': cases, 'failed': failures[:10]})
         ok, out = core.go_test(path)
         if ok:
